@@ -9,7 +9,7 @@ SIGMA_R = ['a', ' ', '\n', '{', '}', '[', ']', '$', '\\', '%', '~', '*', '-']
 SIGMA_L = ['a', ' ', '\n\n', '{', '}', '[', ']', '$', '$$', '\\(', '\\)', '\\[', '\\]',
            '%c\n', '~', '\\alpha ', '\\textbf', '\\text', '\\frac', '\\sqrt', '\\section',
            '\\\\', '\\item', '\\begin{itemize}', '\\end{itemize}',
-           '\\begin{equation}', '\\end{equation}', '\\verb']
+           '\\begin{equation}', '\\end{equation}', '\\verb', '\\begin{verbatim}', '\\end{verbatim}']
 
 SIGMA_M = ['$', 'a', '{', '}', ' ', '\\(', '\\)', '\\[', '\\]']
 
